@@ -238,7 +238,46 @@ def r_literal_classes(ctx):
     ctx.ob(rid, 'bin:non-empty', ok, 'Pow2Usize::new returns None for a length that is not a power of two (0 digits included)', pn.where(), str(rets))
 
 
+REQUIRED_GUARDS = [
+    # (function, substrings of the canonical path condition, outcome prefix, panic sites that rely on it)
+    ('<ast::SingleExpression as ast::AbstractSyntaxTree>::analyze', ['inner(from)=List', 'Le(get(', 'len(inner(from)@List.0))=T'], 'err:ExpressionUnexpectedType',
+     'Partition::from_slice / Value::list / StructuralValue::list assert len < bound'),
+    ('<ast::SingleExpression as ast::AbstractSyntaxTree>::analyze', ['inner(from)=Array', 'Eq(len(inner(from)@Array.0)', '=F'], 'err:ExpressionUnexpectedType', 'array length invariant of typed values'),
+    ('<ast::CallName as ast::AbstractSyntaxTree>::analyze', ['name(from)=Fold', 'Eq(2_usize, len(params(', '=F'], 'err:FunctionNotFoldable', 'params().first()/get(1).expect("foldable function"), params()[1]'),
+    ('<ast::CallName as ast::AbstractSyntaxTree>::analyze', ['name(from)=ForWhile', 'Eq(3_usize, len(params(', '=F'], 'err:FunctionNotLoopable', 'params().first()/get(1)/get(2).unwrap() of a loop function'),
+    ('value::Value::parse_hexadecimal', ['as_inner(ty)=UInt', 'is_empty(as_inner(hexadecimal))=T'], 'err:ExpressionUnexpectedType', 'UIntValue::try_from(bytes).expect("valid length") for sub-byte widths'),
+    ('value::Value::parse_hexadecimal', ['as_inner(ty)=UInt', 'Eq(0_usize, Rem(len(as_inner(hexadecimal)), 2_usize))=F'], 'err:ExpressionUnexpectedType', 'Vec::from_hex(s).expect("valid chars and valid length")'),
+    ('value::Value::parse_hexadecimal', ['as_inner(ty)=UInt', 'checked_mul(byte_width(as_inner(ty)@UInt.0), 2_usize))=F'], 'err:ExpressionUnexpectedType', 'UIntValue::try_from(bytes).expect("valid length")'),
+    ('value::Value::parse_hexadecimal', ['as_inner(ty)=Either|Option|Boolean|Tuple|List'], 'err:ExpressionUnexpectedType', 'unreachable!() in the second match on the type'),
+    ('value::UIntValue::parse_binary', ['eq<UIntType>(ok_or(from_bit_width(ok_or(new(len(as_inner(binary)))', '=F'], 'err:ExpressionTypeMismatch', 'bytes[0], padded_bits.next().unwrap(), try_from(bytes).expect("Enough bytes")'),
+    ('<parse::Match as parse::PestParse>::parse', ['.pattern=other'], 'err:IncompatibleMatchArms', 'unreachable!() in Match::scrutinee_type'),
+    ('pattern::Pattern::is_of_type', ['=Tuple', 'Eq(len(', '=F'], 'err:ExpressionUnexpectedType', 'pattern/value layout agreement used by BasePattern::translate'),
+]
+
+
+def r_required_guards(ctx):
+    rid = 'R06.5'
+    ctx.rule(rid, 'guards the panic-site reasons rely on: the decision row that rejects the input before the panic-capable site is present with its exact predicate')
+    from .. import guards
+    fx = ctx.facts()
+    cache = {}
+    for path, subs, out, what in REQUIRED_GUARDS:
+        fn = ctx.anchor(fx, path)
+        if path not in cache:
+            cache[path] = guards.decision_table(ctx, fn)
+        hit = [r for r in cache[path] if r['out'].startswith(out) and all(x in ' & '.join(r['conds']) for x in subs)]
+        ctx.ob(rid, 'guard:%s:%s' % (path.split('::')[-2][-24:] + '::' + path.split('::')[-1], ' '.join(subs)[:70]), bool(hit), 'rejecting row [%s] ⇒ %s protects: %s' % (' & '.join(subs), out, what), fn.where())
+    # `?`-guards: the type deconstruction that precedes each `.expect("value is type-checked")`
+    fn = ctx.anchor(fx, '<ast::SingleExpression as ast::AbstractSyntaxTree>::analyze')
+    rows = guards.decision_table(ctx, fn)
+    for form, dec in (('Either', 'as_either'), ('Option', 'as_option'), ('Tuple', 'as_tuple'), ('Array', 'as_array'), ('List', 'as_list'), ('Decimal', 'as_integer'), ('Binary', 'as_integer')):
+        ok = [r for r in rows if r['out'].startswith('ok') and any(c.startswith('inner(from)=' + form) for c in r['conds'])]
+        good = bool(ok) and all(any(('ok_or(%s(ty), ExpressionUnexpectedType{ty})' % dec) in c for c in r['checks']) for r in ok)
+        ctx.ob(rid, 'deconstruct:' + form, good, '%s expressions are accepted only after `ty.%s().ok_or(ExpressionUnexpectedType)?` (typed-value invariant G4)' % (form, dec), fn.where())
+
+
 def check(ctx):
+    r_required_guards(ctx)
     r_shape_selftest(ctx)
     n = panic_rule(ctx, 'R06.1')
     ctx.floor('R06.1', 'panic-capable sites in reachable functions', n[0], 300)
